@@ -41,9 +41,16 @@ def case_strategy(draw, ctx):
     T = spec["steps"]
     if draw(st.integers(0, 3)) > 0:  # most cases: make sure light reaches a detector while it records
         spec["sources"][0]["switch"] = {}
-        if spec["sources"][0]["profile"]["kind"] == "custom":
+        if draw(st.booleans()):
+            # a drive that is already non-zero at step 0 (the very first forward step then carries gradient)
+            spec["sources"][0]["profile"] = {"kind": "custom", "dt_steps": draw(st.sampled_from([1.0, 2.5])),
+                                             "signal": [draw(st.sampled_from([1.0, -0.7, 0.5]))] + [
+                                                 round(draw(st.floats(-1, 1, allow_nan=False, width=32)), 3) for _ in range(6)]}
+        elif spec["sources"][0]["profile"]["kind"] == "custom":
             spec["sources"][0]["profile"] = {"kind": "cw"}
         spec["detectors"][0]["switch"] = {} if draw(st.booleans()) else {"start_step": T // 2}
+    if draw(st.booleans()) and "mu" not in spec["background"]:
+        spec["background"]["mu"] = 1.5  # a magnetic scene: the inverse-permeability gradient is compared as well
     is_lossy = "sigE" in spec["background"] or any(("sigE" in o["material"] or "sigH" in o["material"]) for o in spec["objects"])
     ck = T - 1 if is_lossy else draw(st.sampled_from([0, 0, 1, 2, T - 1, draw(st.integers(0, T - 1))]))
     return {"scene": spec, "rev_ckpt": ck, "ad_ckpt": draw(st.integers(1, T)), "w_seed": draw(st.integers(0, 2**31 - 1)),
